@@ -868,7 +868,10 @@ func (s *levelsController) subcompact(it y.Iterator, kr keyRange, cd compactDef,
 		}
 		go func(builder *table.Builder, fileID uint64) {
 			var err error
-			defer inflightBuilders.Done(err)
+			// Report the final value of err: a deferred call's arguments are evaluated at the
+			// defer statement, so `defer inflightBuilders.Done(err)` always reported nil and a
+			// failed table creation let the compaction succeed and delete its inputs.
+			defer func() { inflightBuilders.Done(err) }()
 			defer builder.Close()
 
 			var tbl *table.Table
